@@ -278,7 +278,7 @@ func (te *taskEnv) runOps(ops []Op) {
 func (te *taskEnv) runOp(i int, op *Op) {
 	env := te.env
 	rec := &OpRec{Task: te.idx, Idx: i, Op: op, Sim: simrt.SelfID()}
-	env.Log.Ops = append(env.Log.Ops, rec)
+	env.Log.addOp(rec)
 	rec.Inv = env.Log.Next()
 	rec.InvNow = env.Sim.Elapsed()
 	defer func() {
@@ -419,7 +419,7 @@ func (te *taskEnv) exec(op *Op, rec *OpRec) {
 			if err := env.RootCloser.Close(); err != nil {
 				rec.Err = err.Error()
 			}
-			env.rootClosed = true
+			env.setRootClosed()
 			rec.Extra = len(env.Sim.LiveLibTasks())
 		}
 	case "sleep":
@@ -439,7 +439,7 @@ func (te *taskEnv) exec(op *Op, rec *OpRec) {
 				if err := env.RootCloser.Close(); err != nil {
 					rec.Err = err.Error()
 				}
-				env.rootClosed = true
+				env.setRootClosed()
 				complete = true
 			}
 		}
@@ -500,25 +500,15 @@ func (te *taskEnv) exec(op *Op, rec *OpRec) {
 func (te *taskEnv) tick() bool {
 	env := te.env
 	iv := env.Prog.Cfg.IntervalNs
-	if iv <= 0 || env.rootClosed {
+	if iv <= 0 || env.isRootClosed() {
 		return true
 	}
 	from := env.Log.Seq()
 	for i := 0; i < 12; i++ {
 		simrt.Sleep(time.Duration(iv))
 		simrt.Quiesce()
-		per := map[int]int{}
-		for j := len(env.Log.Events) - 1; j >= 0; j-- {
-			e := env.Log.Events[j]
-			if e.Seq <= from {
-				break
-			}
-			if e.Kind == EvFlush && e.EndSeq != 0 {
-				per[e.Task]++
-				if per[e.Task] >= 2 {
-					return true
-				}
-			}
+		if env.Log.twoFlushesSince(from) {
+			return true
 		}
 	}
 	return false
